@@ -151,13 +151,13 @@ func replay(t *testing.T, tr *vhlib.Trace, ops []vhlib.ParsedLine) {
 		case "announce":
 			w.doAnnounce(tr, op.Int("newaddr") == 1)
 		case "form":
-			w.doForm(tr, op.U64("dur"))
+			w.doForm(tr, op.U64("dur"), op.Int("nopool") == 1)
 		case "revise":
 			w.doRevise(tr, op.Int("c"))
 		case "fresh":
 			w.doFresh(tr, op.Int("batch"))
 		case "formv1":
-			w.doFormV1(tr, op.U64("dur"))
+			w.doFormV1(tr, op.U64("dur"), op.Int("risk") == 1, op.Int("nopool") == 1)
 		case "append":
 			w.doAppend(tr, op.Int("c"))
 		case "twin":
